@@ -384,7 +384,7 @@ def reader_total(chk, short, dec, spec):
     starts a defined form (direct length, or a marker followed by its length bytes), with at least that many bytes of
     input, no explicit `Err(..)` is reachable - whatever the following bytes are.  (256 x 3 constant propagations; a
     "shortest form only" check that is off by one - `81 80` refused - is a reachable Err under 0x81.)"""
-    from mirlite import feasible_reach
+    from mirlite import feasible_reach, is_error_propagation
     vx = VEx(dec)
 
     def first_byte(e):
@@ -427,7 +427,7 @@ def reader_total(chk, short, dec, spec):
             for i in feasible_reach(dec, 0, pins=pins):
                 for st in dec.blocks[i]["stmts"]:
                     if st["s"] == "assign" and st["p"]["l"] == 0 and not st["p"]["p"] and st["rv"]["r"] == "agg" and \
-                            st["rv"].get("vname") == "Err" and not st.get("rewrap"):
+                            st["rv"].get("vname") == "Err" and not is_error_propagation(dec, st):
                         refused.setdefault(v, set()).add(L_)
     chk.require(not refused, "C16-b/reader-total", short,
                 "the reader can refuse a defined prefix although all its bytes are there (first byte %s): the writer emits such "
